@@ -384,7 +384,7 @@ type FuncResult struct {
 
 func (e *Engine) newCtx(fn *ssa.Function) *Ctx {
 	return &Ctx{eng: e, declSeen: map[string]bool{}, counter: map[string]int{}, strLits: map[string]Term{}, assumed: map[string]bool{},
-		externs: map[string]bool{}, inlined: map[string]bool{}, writes: map[string]bool{}, fn: fn, oblCount: map[string]int{}}
+		externs: map[string]bool{}, inlined: map[string]bool{}, writes: map[string]bool{}, nonFresh: map[string]bool{}, freshRefs: map[string]bool{}, fn: fn, oblCount: map[string]int{}}
 }
 
 func (e *Engine) verifyFunction(key string) (res *FuncResult) {
